@@ -38,4 +38,10 @@ def enumSites : List (String × String × String) :=
 def patternSites : List (String × String × String) :=
   [("model/pydantic/types.py", "r'", "'")]
 
+/-- `escape_docstring`: the (old, new) pairs of its chain of str.replace calls, in application order -/
+def docstringReplaces : List (List Char × List Char) :=
+  [([Char.ofNat 92], [Char.ofNat 92, Char.ofNat 92]),
+   ([Char.ofNat 34, Char.ofNat 34, Char.ofNat 34], [Char.ofNat 34, Char.ofNat 34, Char.ofNat 92, Char.ofNat 34]),
+   ([Char.ofNat 0], [Char.ofNat 92, Char.ofNat 120, Char.ofNat 48, Char.ofNat 48])]
+
 end Dcg.Gen.EscTables
